@@ -55,6 +55,23 @@ class SpecEq(FuncSpec):
         else:
             yield "equal-iff-all-fields-equal", c.Or(c.And(res, same(c, s1, s2)), c.And(c.Not(res), c.Not(same(c, s1, s2))))
 
+    def replay(self, cfg, model, ob):
+        if cfg["other"] != "spec":
+            return None
+        f = lambda lab: {x: model.get(f"{lab}{x}", 0) for x in FIELDS}
+        return f"""
+import cubed
+def mk(t):
+    return cubed.Spec(work_dir=f"/tmp/wd{{t['_work_dir']}}", intermediate_store=f"store{{t['_intermediate_store']}}",
+                      allowed_mem=t['_allowed_mem'], reserved_mem=t['_reserved_mem'], executor=None,
+                      storage_options={{"opt": t['_storage_options']}}, zarr_compressor={{"name": f"c{{t['_zarr_compressor']}}"}})
+t1, t2 = {f('s1')!r}, {f('s2')!r}
+t1['_executor'] = t2['_executor'] = 0
+s1, s2 = mk(t1), mk(t2)
+same = all(t1[k] == t2[k] for k in t1)
+reproduced, detail = ((s1 == s2) != same), f"Spec.__eq__ -> {{s1 == s2}} for field tokens {{t1}} vs {{t2}}"
+"""
+
     def canaries(self, c, a, k, res):
         if c.cfg["other"] == "spec":
             s1, s2 = c.s
